@@ -85,7 +85,7 @@ def run(ctx):
         p, churn = progs[pid]
         d = eng.write(pid, pretty(p))
         tf = os.path.join(d, "trace.ndjson")
-        r = eng.vm(d, extra_env={"NANOLANG_VERIF_TRACE": tf, "NANOLANG_VERIF_FUEL": fuel})
+        r = eng.vm(d, extra_env={"NANOLANG_VERIF_TRACE_VM": tf, "NANOLANG_VERIF_FUEL": fuel})
         n = sum(1 for _ in open(tf)) if os.path.exists(tf) else 0
         return pid, dict(run=r, trace=tf if n else None, n=n, churn=churn)
     runs = dict(parallel_map(one, list(progs)))
